@@ -276,6 +276,29 @@ pub fn judge(expected: &Outcome, observed: &Observed, ranges: &Ranges, attr_rang
                     (Some(_), None) => {}
                 }
             }
+            // second chance for C03: a mistake that went unmatched only because its location path is wrong
+            // still has a leaf of its family somewhere; that leaf's span is judged too
+            {
+                let mut taken = used.clone();
+                for (ei, e) in want.iter().enumerate() {
+                    if pairs.iter().any(|p| p.0 == ei) {
+                        continue;
+                    }
+                    let Some(r) = range_of(&e.at, ranges, attr_ranges) else { continue };
+                    let fe = family_expected(&e.kind);
+                    let Some(oi) = leaves.iter().enumerate().position(|(oi, o)| !taken[oi] && fe != "*" && fe.contains(o.family)) else { continue };
+                    taken[oi] = true;
+                    let o = &leaves[oi];
+                    match o.span {
+                        None => add("C03", format!("span-missing:{:?}", e.kind), format!("leaf {:?} (matched by kind only, its path differs) has no span; it concerns the {} at [{},{})", o.msg, where_name(&e.at), r.0, r.1)),
+                        Some(s) if !(s.0 >= r.0 && s.1 <= r.1) => {
+                            let class = if s.0 <= r.0 && s.1 >= r.1 { "span-too-coarse" } else { "span-elsewhere" };
+                            add("C03", format!("{class}:{:?}", e.kind), format!("leaf {:?} (matched by kind only, its path differs) has span [{},{}); the {} at fault is [{},{})", o.msg, s.0, s.1, where_name(&e.at), r.0, r.1));
+                        }
+                        _ => {}
+                    }
+                }
+            }
             // suggestions
             for (ei, oi) in &pairs {
                 let e = &want[*ei];
